@@ -237,10 +237,29 @@ func runC02(r *core.Run) {
 	seen := make([]*c02Seen, len(encs))
 	var mu sync.Mutex
 	codesSeen := map[string]int64{}
-	core.ParallelFor(len(encs), 16, func(i int) {
+	// each encoder's list is swept by four goroutines at once (chunks overlap by one point), so that
+	// the very first use of each lazily built table is concurrent
+	const chunks = 4
+	for i := range encs {
+		seen[i] = newSeen(int(encs[i].Max))
+	}
+	var smu sync.Mutex
+	core.ParallelFor(len(encs)*chunks, 16, func(j int) {
+		i, c := j/chunks, j%chunks
 		e := &encs[i]
-		seen[i] = newSeen(int(e.Max))
-		n := c02SweepList(r, e, pts, seen[i])
+		lo, hi := c*len(pts)/chunks, (c+1)*len(pts)/chunks
+		if lo > 0 {
+			lo--
+		}
+		local := newSeen(int(e.Max))
+		n := c02SweepList(r, e, pts[lo:hi], local)
+		smu.Lock()
+		seen[i].merge(local)
+		smu.Unlock()
+		if c != 0 {
+			r.AddEvals(n)
+			return
+		}
 		for _, x := range nanPts {
 			if bad, kind, msg, _ := c02CheckPoint(e, x); bad {
 				r.Violate("point", e.Name+"/"+kind, msg, c02Case{e.Name, math.Float32bits(x), "NaN", 0})
